@@ -85,10 +85,34 @@ def make_world(kind, rng, **over):
         addrs = [{"id": 0, "name": "db1_shard_0_primary", "backend": "b0", "pool": 1, "replica": False},
                  {"id": 1, "name": "db1_shard_0_replica_0", "backend": "b1", "pool": 1, "replica": True}]
         backends = ["b0", "b1"]
+    elif kind == "sharded":
+        # one pool over 2-3 shards (one primary each, one backend each); shard chosen by comment, SET SHARD or default_shard
+        nsh = over.get("shards", rng.choice([2, 3]))
+        dsh = over.get("default_shard", rng.choice(["shard_0", "shard_1", "random", "random_healthy"]))
+        opts.update({"shard_id_regex": r"/\* shard_id: (\d+) \*/", "sharding_key_regex": r"/\* sharding_key: (\d+) \*/", "default_shard": dsh})
+        cfg_pools["db1"] = {"opts": opts, "users": [{"username": "c18u1", "password": "pw1", "pool_size": size}],
+                            "shards": [{"database": "c18d1", "servers": [["b%d" % i, "primary"]]} for i in range(nsh)]}
+        pools = [{"id": 1, "db": "db1", "user": "c18u1", "pw": "pw1", "mode": mode, "size": size}]
+        addrs = [{"id": i, "name": "db1_shard_%d_primary" % i, "backend": "b%d" % i, "pool": 1, "replica": False, "shard": i} for i in range(nsh)]
+        backends = ["b%d" % i for i in range(nsh)]
     else:
         raise ValueError(kind)
-    return {"kind": kind, "toml": W.make_toml(general, cfg_pools), "backends": backends, "pools": pools, "addrs": addrs,
-            "hc_always": hc_always, "limit": limit, "parser": parser, "mode": mode, "default_role": default_role}
+    w = {"kind": kind, "toml": W.make_toml(general, cfg_pools), "backends": backends, "pools": pools, "addrs": addrs,
+         "hc_always": hc_always, "limit": limit, "parser": parser, "mode": mode, "default_role": default_role}
+    if kind == "sharded":
+        w["shards"], w["default_shard"] = nsh, dsh
+    return w
+
+
+def shard_addr(w, shard):
+    """sharded world: the address a checkout goes to for the router's shard (None = nothing selected: default_shard).
+    -> address | None (any shard: default_shard random) | "bad" (no such shard: pool.get refuses before the candidate loop)"""
+    if shard == "?":
+        return None
+    if shard is None:
+        d = w["default_shard"]
+        return w["addrs"][int(d[6:])] if d.startswith("shard_") else None
+    return w["addrs"][shard] if shard < w["shards"] else "bad"
 
 
 # =========================================================================================== history builder
@@ -122,6 +146,8 @@ class Hist:
         cands = [a for a in self.w["addrs"] if a["pool"] == x["pool"]]
         if len(cands) == 1:
             return cands[0]
+        if self.w["kind"] == "sharded":
+            return shard_addr(self.w, x.get("shard"))
         if x["role"] is None:
             return None
         return next(a for a in cands if a["replica"] == (x["role"] == "replica"))
@@ -155,7 +181,7 @@ class Hist:
             params = {"user": p["user"], "database": p["db"] if how != "nodb" else "nosuchdb", "application_name": app}
             pw = p["pw"] if how != "badpw" else "wrong"
         self.cl[c] = {"id": cid, "app": app, "pool": pid, "alive": how == "ok" and not (self.admin_only and pid != 0),
-                      "hold": None, "intxn": False, "role": None, "admin": pid == 0, "n": 0, "fails": 0}
+                      "hold": None, "intxn": False, "role": None, "admin": pid == 0, "n": 0, "fails": 0, "shard": None}
         self.steps.append({"op": "connect", "c": c, "params": params, "password": pw, "timeout_ms": 2500})
         if how == "ok" and pid != 0 and pid not in self.validated and not self.admin_only:
             ok_any = False
@@ -168,7 +194,7 @@ class Hist:
             else:
                 self.cl[c]["alive"] = False
         self.sample({"kind": "connect", "c": c, "how": how})
-        if self.cl[c]["alive"] and pid != 0 and len([a for a in self.w["addrs"] if a["pool"] == pid]) > 1 and self.w["default_role"] == "any" and not self.w.get("keep_any"):
+        if self.cl[c]["alive"] and pid != 0 and len([a for a in self.w["addrs"] if a["pool"] == pid]) > 1 and self.w["default_role"] == "any" and not self.w.get("keep_any") and self.w["kind"] != "sharded":
             self.set_role(c, "primary")
 
     def set_role(self, c, role):
@@ -177,29 +203,37 @@ class Hist:
         self.steps.append({"op": "recv", "c": c, "until": "Z", "timeout_ms": 1500})
         self.sample({"kind": "noop", "c": c, "what": "SET SERVER ROLE", "role": role})
 
-    def request(self, c, what, spawn_sample=False, expect=None):
-        """what: select | begin | commit | rollback | error | ext | sync"""
+    def request(self, c, what, spawn_sample=False, expect=None, shard=None):
+        """what: select | begin | commit | rollback | error | ext | sync;
+        shard (sharded world): ("id", n) => leading /* shard_id: n */, ("key", k) => /* sharding_key: k */"""
         x = self.cl[c]
         t = self.tag(c)
+        if shard is not None and what != "sync":
+            t = ("/* shard_id: %d */ " if shard[0] == "id" else "/* sharding_key: %d */ ") % shard[1] + t
+            if x["hold"] is None:      # the comment is only looked at outside a transaction (try_execute_command)
+                x["shard"] = shard[1] if shard[0] == "id" else "?"
         lab = "r%d" % (len(self.steps))
         if what in ("select", "begin", "commit", "rollback", "error"):
-            sql = {"select": "SELECT 1 " + t, "begin": "BEGIN " + t, "commit": "COMMIT " + t, "rollback": "ROLLBACK " + t,
-                   "error": "SELECT 1 /*mock: error*/ " + t}[what]
+            sql = {"select": "%s SELECT 1", "begin": "%s BEGIN", "commit": "%s COMMIT", "rollback": "%s ROLLBACK",
+                   "error": "%s SELECT 1 /*mock: error*/"}[what] % t
             msgs = [{"t": "Q", "sql": sql}]
             proto = "Q"
         elif what == "ext":
-            msgs = [{"t": "P", "name": "", "sql": "SELECT 2 " + t, "types": []}, {"t": "B", "portal": "", "name": "", "params": []},
+            msgs = [{"t": "P", "name": "", "sql": t + " SELECT 2", "types": []}, {"t": "B", "portal": "", "name": "", "params": []},
                     {"t": "E", "portal": "", "max": 0}, {"t": "S"}]
             proto = "ext"
         else:
             msgs = [{"t": "S"}]
             proto = "sync"
         a = self.addr_of(c)
+        refused = a == "bad"
+        if refused:
+            a = None
         ncand = 1 if a is not None else len([y for y in self.w["addrs"] if y["pool"] == x["pool"]])
         to = CT * ncand + HCT + 900
         send = {"op": "send", "c": c, "msgs": msgs}
         recv = {"op": "recv", "c": c, "until": "Z", "timeout_ms": to, "label": lab}
-        entry = {"kind": "req", "c": c, "proto": proto, "what": what, "tag": t, "rlabel": lab}
+        entry = {"kind": "req", "c": c, "proto": proto, "what": what, "tag": t.split("*/ ")[-1] if "shard" in t else t, "rlabel": lab, "shard": shard}
         if spawn_sample:
             # sample while the client is blocked in pool.get, then again when it is over
             self.steps.append({"op": "spawn", "task": lab, "steps": [send, recv]})
@@ -210,7 +244,9 @@ class Hist:
         else:
             self.steps += [send, recv]
         # guide simulation
-        if x["hold"] is None:
+        if x["hold"] is None and a is None and not refused and self.w["kind"] == "sharded":
+            pass      # any shard may serve (default_shard random / a sharding key): only asked for when nothing is exhausted, nothing is kept
+        elif x["hold"] is None:
             served = a is not None and a["backend"] not in self.down and self.hold[a["id"]] < self.pool(x["pool"])["size"]
             if a is not None and a["backend"] in self.down and self.nconn[a["id"]] - self.hold[a["id"]] > 0:
                 # a dead idle connection
@@ -243,6 +279,16 @@ class Hist:
             elif what == "begin":
                 x["intxn"] = True
         self.sample(entry)
+
+    def custom(self, c, sql, shard=None):
+        """a router command answered by the pooler itself (no checkout); shard: the value SET SHARD TO asks for"""
+        x = self.cl[c]
+        lab = "k%d" % len(self.steps)
+        self.steps.append({"op": "send", "c": c, "msgs": [{"t": "Q", "sql": sql}]})
+        self.steps.append({"op": "recv", "c": c, "until": "Z", "timeout_ms": 1500, "label": lab})
+        if shard is not None and shard < self.w.get("shards", 1):
+            x["shard"] = shard
+        self.sample({"kind": "noop", "c": c, "what": sql, "set_shard": shard, "rlabel": lab})
 
     def leave(self, c, how):
         """how: close | term"""
@@ -314,7 +360,7 @@ class Hist:
 # =========================================================================================== generators
 
 def random_history(rng, idx, nact):
-    kind = rng.choice(["single", "single", "two", "replica", "session"])
+    kind = rng.choice(["single", "single", "two", "replica", "session", "sharded", "sharded"])
     w = make_world(kind, rng)
     h = Hist(w, "rnd%d-%s" % (idx, kind))
     names = []
@@ -354,6 +400,43 @@ def random_history(rng, idx, nact):
                 else:
                     h.leave(c, rng.choice(["close", "term"]))
                 continue
+            if kind == "sharded" and x["hold"] is None:
+                r = rng.random()
+                if r < 0.12:
+                    h.custom(c, "SET SHARD TO '%d'" % rng.choice([w["shards"], w["shards"] + 4, 99]), shard=99)
+                    continue
+                if r < 0.2:
+                    k = rng.randrange(w["shards"])
+                    h.custom(c, "SET SHARD TO '%d'" % k, shard=k)
+                    continue
+                if r < 0.25:
+                    h.custom(c, "SET SHARDING KEY TO '99999999999999999999'")
+                    continue
+            sh = None
+            if kind == "sharded" and x["hold"] is None:
+                r = rng.random()
+                free = all(h.hold[y["id"]] < h.pool(1)["size"] for y in w["addrs"])
+                if r < 0.3:
+                    sh = ("id", rng.randrange(w["shards"]))
+                elif r < 0.5:
+                    sh = ("id", rng.choice([w["shards"], 7, 123]))          # no such shard
+                elif r < 0.62 and free:
+                    sh = ("key", rng.randrange(1, 1000))
+                if sh is None and shard_addr(w, x["shard"]) is None and not free:
+                    sh = ("id", rng.randrange(w["shards"]))                  # any-shard requests only while nothing is exhausted
+                if sh is not None:
+                    x_shard_after = sh[1] if sh[0] == "id" else "?"
+                    a = shard_addr(w, x_shard_after)
+                else:
+                    a = h.addr_of(c)
+                if a == "bad" or a is None:
+                    what = rng.choice(["select", "select", "ext", "error", "begin" if a == "bad" else "select"])
+                    h.request(c, what, shard=sh)
+                    continue
+                exhausted = h.hold[a["id"]] >= h.pool(1)["size"]
+                what = rng.choice(["select", "select", "begin", "begin", "ext", "error"])
+                h.request(c, what, spawn_sample=exhausted and rng.random() < 0.5, shard=sh)
+                continue
             a = h.addr_of(c)
             exhausted = x["hold"] is None and a is not None and h.hold[a["id"]] >= h.pool(x["pool"])["size"]
             if exhausted and rng.random() < 0.25:
@@ -381,6 +464,8 @@ def random_history(rng, idx, nact):
             if b in h.down:
                 h.backend(b, "normal")
             else:
+                if kind == "sharded":
+                    continue          # (any-shard checkouts must stay deterministic: no backend faults in this world)
                 aids = [a["id"] for a in w["addrs"] if a["backend"] == b]
                 # only when pgcat has at most one connection to it, and either nobody or one client holds it
                 if all(h.nconn[a] <= 1 for a in aids) and rng.random() < 0.7:
@@ -465,6 +550,41 @@ def directed_histories(rng):
     h.shutdown()
     h.connect("c3", 1)              # rejected: admin only
     h.request("c1", "commit")       # the transaction may finish; then the client is told to go
+    out.append(h)
+    # sharded pool: valid / unknown shard ids by comment and by SET SHARD, sharding keys, every default_shard;
+    # pool.get refuses an unknown shard BEFORE its candidate loop (client.rs: waiting(), Err arm: idle())
+    for dsh in ("shard_0", "shard_1", "random", "random_healthy"):
+        w = make_world("sharded", rng, limit=None, hc_always=False, size=2, shards=3, default_shard=dsh)
+        h = Hist(w, "shard-refusal-%s" % dsh)
+        h.connect("c1", 1)
+        h.connect("c2", 1)
+        h.request("c1", "select")                            # nothing selected: default_shard decides
+        h.request("c1", "select", shard=("id", 2))
+        h.request("c1", "select", shard=("id", 7))           # refused: error reply, stays connected, idle
+        h.request("c1", "select")                            # the router keeps shard 7: refused again
+        h.request("c1", "ext")                               # ... also for a Parse/Bind/Execute/Sync batch
+        h.request("c1", "sync")                              # ... and a lone Sync
+        h.custom("c1", "SET SHARD TO '9'", shard=9)          # error reply, no checkout, shard 7 stays
+        h.request("c1", "begin")                             # still refused
+        h.custom("c1", "SET SHARD TO '1'", shard=1)
+        h.request("c1", "begin")
+        h.request("c1", "select", shard=("id", 7))           # inside a transaction the comment is not looked at
+        h.request("c1", "commit")
+        h.request("c1", "select", shard=("key", 42))
+        h.request("c1", "ext", shard=("id", 5))              # refused at the Sync
+        h.custom("c1", "SET SHARDING KEY TO '99999999999999999999'")
+        h.request("c2", "select", shard=("id", 0))
+        h.leave("c1", "term")
+        h.leave("c2", "close")
+        out.append(h)
+    w = make_world("sharded", rng, limit=2, hc_always=False, size=1, shards=2, default_shard="shard_0")
+    h = Hist(w, "shard-refusal-limit")
+    h.connect("c1", 1)
+    h.connect("c2", 1)
+    h.request("c1", "select", shard=("id", 3))
+    h.request("c2", "begin", shard=("id", 1))
+    h.request("c1", "select", shard=("id", 1), spawn_sample=True)     # shard 1 is exhausted: second failure, disconnected
+    h.request("c2", "commit")
     out.append(h)
     # failed health check with a replica (client error counter, ban) and with a primary
     for role in ("replica", "primary"):
@@ -572,6 +692,7 @@ class Derive:
         self.done_req = set()
         self.sidmap, self.sidinfo = {}, {}
         self.initer = {}         # client -> blocked on a candidate inside pool.get
+        self.shard = {}          # sharded world: client -> the router's shard (None nothing selected, "?" some valid shard)
         self.banned = set()      # replica addresses on the ban list (a checkout that meets a banned address unbans it
                                  # - it is the only replica - and forces a health check: pool.rs try_unban / force_healthcheck)
 
@@ -591,6 +712,9 @@ class Derive:
         cands = [a for a in self.w["addrs"] if a["pool"] == x["pool"]]
         if len(cands) == 1:
             return cands[0]
+        if self.w["kind"] == "sharded":
+            a = shard_addr(self.w, self.shard.get(c))
+            return None if a == "bad" else a
         r = self.role.get(c)
         return next((a for a in cands if a["replica"] == (r == "replica")), None)
 
@@ -655,6 +779,16 @@ class Derive:
     def k_noop(self, entry, ops, drops):
         if "role" in entry:
             self.role[entry["c"]] = entry["role"]
+        if entry.get("set_shard") is not None:
+            # SET SHARD TO 'n': accepted iff n < shards (client.rs handle_custom_protocol), else the old shard stays
+            ev = self.recv_by_label.get(entry["rlabel"])
+            ok = bool(ev) and not any(f.get("t") == "E" for f in ev["frames"])
+            self.outcomes.append(("custom", "SET SHARD", "accepted" if ok else "refused"))
+            if ok:
+                self.shard[entry["c"]] = entry["set_shard"]
+        elif "rlabel" in entry:
+            ev = self.recv_by_label.get(entry["rlabel"])
+            self.outcomes.append(("custom", entry["what"].split(" TO")[0], "error" if ev and any(f.get("t") == "E" for f in ev["frames"]) else "ok"))
 
     def k_connect(self, entry, ops, drops):
         c = entry["c"]
@@ -714,11 +848,29 @@ class Derive:
         if self.phase.get(c) != "handle":
             return
         txn_mode = self.w["mode"] != "session"
+        if entry.get("shard") and c not in self.held and entry["proto"] != "sync":
+            # a leading routing comment is read by try_execute_command (outer loop only)
+            self.shard[c] = entry["shard"][1] if entry["shard"][0] == "id" else "?"
+        msgs_e = [f.get("fields", {}).get("M", "") for f in (ev["frames"] if ev else []) if f.get("t") == "E"]
+        refused = cls == "poolfail" and any("InvalidShardId" in m for m in msgs_e)
         a = self.cand(c)
         force_hc = False
         if c not in self.held and a is not None and a["id"] in self.banned:
             force_hc = True
             self.banned.discard(a["id"])
+        if c not in self.held and refused:
+            # pool.get returns Err(InvalidShardId) BEFORE the candidate loop: client.rs waiting(), then the Err arm: idle()
+            if not self.inchk.get(c):
+                ops.append("CheckoutStart %d" % cid)
+            ops.append("CheckoutGiveUp %d" % cid)
+            self.inchk[c] = self.initer[c] = False
+            self.fails[c] = self.fails.get(c, 0) + 1
+            if "ok" in self.new_tasks and bool(self.w["limit"]) and self.fails[c] >= self.w["limit"]:
+                ops.append("ExitOk %d" % cid)
+                self.after_exit(c)
+            else:
+                self.maybe_shutdown_exit(c, ops)
+            return
         if c not in self.held:
             self.k_req_start(entry, ops, drops)
             if cls == "served":
@@ -733,6 +885,8 @@ class Derive:
                 self.held[c] = s
                 self.srv[s]["holder"] = c
                 self.inchk[c] = self.initer[c] = False
+                if self.shard.get(c) == "?":
+                    self.shard[c] = self.w["addrs"][self.srv[s]["addr"]].get("shard", 0)    # where the sharding key landed
             elif cls == "poolfail":
                 for a1 in ([a] if a else []):
                     if not self.initer.get(c):
@@ -1308,7 +1462,7 @@ def report(run, hs, results, verdicts, proof_ok, log):
     run.cov["distinct_nontrivial"] = len(distinct)
     run.cov["rule"] = ("one evaluation = one quiescent sample (registries via public API + 5 admin SHOW commands) compared with the model; histories: %d directed "
                        "(every confirmed panic input at idle / in transaction / admin, every way of leaving, failure limit, lone Sync, shutdown, health-check failure and server death on primary and replica, "
-                       "waiting while retrying the next candidate, tested and login states) + seeded random over 5 world kinds (single, two pools, primary+replica, session mode; pool_size 1-2, health check always/never, checkout_failure_limit); "
+                       "waiting while retrying the next candidate, tested and login states, sharded pool: shard by comment / SET SHARD / sharding key / default_shard, unknown shard refused before the candidate loop) + seeded random over 5 world shapes (single, two pools, primary+replica, session mode, sharded 2-3 shards; pool_size 1-2, health check always/never, checkout_failure_limit); "
                        "distinct = distinct (world kind, action, detail, canonical model observation)" % (len(hs) - sum(1 for h in hs if h.name.startswith("rnd"))))
     run.cov["samples"] = samples[:6]
     run.cov["input_distribution"] = {"histories": len(hs), "by_world": kinds, "histories_with_panic": npanic_hist, "outcomes": dict(sorted(outcome_hist.items(), key=lambda kv: -kv[1])[:40]),
